@@ -28,6 +28,7 @@ class FakeLink(CRTPDriver):
     cfg = Config()
     instances = []
     connect_raises = None
+    fault_spent = False
 
     def __init__(self):
         CRTPDriver.__init__(self)
@@ -51,10 +52,26 @@ class FakeLink(CRTPDriver):
         if FakeLink.connect_raises:
             raise Exception(FakeLink.connect_raises)
         self.err = err_cb
-        if self.cfg.fault_at is not None and self.cfg.fault_mode == 'driver':
+        c = self.cfg
+        if c.fault_at is not None and c.fault_mode == 'driver':
             import threading
+            if c.fault_at == 0:
+                self.fault_ev.set()      # reports as soon as the driver thread gets to run
             t = threading.Thread(target=self._driver)
             t.start()
+        if c.fault_at == 0 and c.fault_mode == 'connect_sync' and not FakeLink.fault_spent:
+            # the driver notices during connect() that the peer does not answer and reports it at once
+            FakeLink.fault_spent = True
+            self.fault_done = True
+            err_cb('fake link error (during connect)')
+        if c.fault_at == 0 and c.fault_mode == 'connect_thread' and not FakeLink.fault_spent:
+            # ... or its freshly started thread does, before connect() returns
+            import threading
+            FakeLink.fault_spent = True
+            self.fault_done = True
+            t = threading.Thread(target=lambda: err_cb('fake link error (driver thread during connect)'))
+            t.start()
+            t.join()
 
     def _driver(self):
         self.fault_ev.wait()
@@ -104,10 +121,16 @@ class FakeLink(CRTPDriver):
         if c.fault_at is not None and self.count >= c.fault_at and not self.fault_done and c.fault_mode == 'driver':
             self.fault_ev.set()
 
+    def _arm_immediately(self):
+        if self.cfg.fault_at == 0 and self.cfg.fault_mode == 'driver':
+            self.fault_ev.set()
+
     def _reply(self, port, chan, data):
         c = self.cfg
         if c.hold_after is not None and self.count >= c.hold_after:
             return
+        if self.fault_done:
+            return                   # a link that has reported a failure delivers nothing any more
         pk = CRTPPacket()
         pk.set_header(port, chan)
         pk.data = bytes(data)
@@ -168,5 +191,6 @@ def install(cfg):
     FakeLink.cfg = cfg
     FakeLink.instances = []
     FakeLink.connect_raises = None
+    FakeLink.fault_spent = False
     FakeLink.hook = None
     cflib.crtp.CLASSES[:] = [FakeLink]
